@@ -3,13 +3,13 @@ module verifsim
 go 1.26.8
 
 require (
+	github.com/blang/semver v3.5.1+incompatible
 	github.com/boltdb/bolt v1.3.1
 	github.com/skycoin/skycoin v0.0.0
 	golang.org/x/crypto v0.0.0-20181015023909-0c41d7ab0a0e
 )
 
 require (
-	github.com/blang/semver v3.5.1+incompatible // indirect
 	github.com/mattn/go-colorable v0.0.9 // indirect
 	github.com/mattn/go-isatty v0.0.4 // indirect
 	github.com/mgutz/ansi v0.0.0-20170206155736-9520e82c474b // indirect
